@@ -21,7 +21,7 @@ def cases(tier):
     return fixfam.fix_cases(
         tier, rulesets_raw=("layout", "all", "format"), rulesets_yaml=("all",) if tier == "quick" else ("all", "format"),
         rulesets_fixtures=("all",),
-    ) + fixfam.layout_product_cases(("layout", "all")) + fixfam.ruleopts_cases() + fixfam.lt05_product_cases()
+    ) + fixfam.layout_product_cases(("layout", "all")) + fixfam.ruleopts_cases() + fixfam.lt05_product_cases() + fixfam.layout_sweep_cases(("layout",))
 
 
 def _single_target_over_limit(lnt, *trees):
